@@ -247,11 +247,81 @@ func steadyHistory(g *rand.Rand, s *genState, h *History) {
 	}
 }
 
+// refHistory: C05's own quantifier - chains of 1..4 ID changes inside one grace
+// period (explicit RegenerateID, LogIn, automatic rotation), then every
+// generation of the ID presented on both sides of the grace boundary and of
+// the backstop SessionIDExpiry+grace, with and without a restart (which loses
+// the pending clean-ups) or a purge (which pushes the records out of memory)
+// in between.
+func refHistory(g *rand.Rand, s *genState, h *History) {
+	s.cfg.Grace = pickDur(g, 2*sec, 20*sec, 300*sec)
+	s.cfg.IDExpiry = pickDur(g, 5*sec, 30*sec, 3600*sec, forever)
+	if g.IntN(3) != 0 {
+		s.cfg.Expiry = forever
+	}
+	s.cfg.AcceptIP, s.cfg.AcceptUA = 1, true
+	h.Cfg = s.cfg
+	addr, agent := s.addrFor(0), s.agentFor(0)
+	h.Steps = append(h.Steps, Hop{Kind: "req", Client: 0, Create: true, Addr: addr, Agent: agent, Script: []Sop{{Op: "set", K: 1, V: 9}}})
+	changes := 1 + g.IntN(4)
+	for i := 0; i < changes; i++ {
+		h.Steps = append(h.Steps, Hop{Kind: "wait", D: int64(1 + g.IntN(int(s.cfg.Grace/int64(2*changes))))})
+		op := []Sop{{Op: "regen"}}
+		if g.IntN(3) == 0 {
+			op = []Sop{{Op: "login", U: 1, Ver: 1, Excl: g.IntN(2) == 0}}
+		}
+		h.Steps = append(h.Steps, Hop{Kind: "req", Client: 0, Addr: addr, Agent: agent, Script: op})
+	}
+	switch g.IntN(4) {
+	case 0:
+		h.Steps = append(h.Steps, Hop{Kind: "restart"})
+	case 1:
+		h.Steps = append(h.Steps, Hop{Kind: "purge"})
+	}
+	// where to look: inside grace, at its end, between grace and backstop, at the backstop
+	var d int64
+	switch g.IntN(6) {
+	case 0:
+		d = s.cfg.Grace / 4
+	case 1:
+		d = s.cfg.Grace - 1
+	case 2:
+		d = s.cfg.Grace + 1
+	case 3:
+		d = s.cfg.Grace + sec
+	case 4:
+		if s.cfg.IDExpiry < forever {
+			d = s.cfg.IDExpiry + s.cfg.Grace + 1
+		} else {
+			d = 2 * s.cfg.Grace
+		}
+	default:
+		if s.cfg.IDExpiry < forever {
+			d = s.cfg.IDExpiry + s.cfg.Grace - sec
+		} else {
+			d = s.cfg.Grace / 2
+		}
+	}
+	if d <= 0 {
+		d = 1
+	}
+	h.Steps = append(h.Steps, Hop{Kind: "wait", D: d})
+	for n := 0; n <= changes; n++ {
+		k := Key{Gen: true, N: n}
+		h.Steps = append(h.Steps, Hop{Kind: "req", Client: 5 + n, ForgeKey: &k, Addr: addr, Agent: agent, Script: []Sop{{Op: "get", K: 1}}})
+	}
+	h.Steps = append(h.Steps, Hop{Kind: "req", Client: 0, Addr: addr, Agent: agent, Script: []Sop{{Op: "get", K: 1}}})
+}
+
 func genHistory(g *rand.Rand, id int, seed uint64, family string) History {
 	s := &genState{g: g, cfg: genCfg(g), addrs: map[int]Addr{}, agents: map[int]int{}}
 	h := History{ID: id, Family: family, Seed: seed, Cfg: s.cfg, Tmpl: g.IntN(1728)}
 	if family == "hist" && g.IntN(4) == 0 {
 		steadyHistory(g, s, &h)
+		return h
+	}
+	if family == "hist" && g.IntN(6) == 0 {
+		refHistory(g, s, &h)
 		return h
 	}
 	n := 5 + g.IntN(36)
